@@ -210,6 +210,11 @@ pub fn foreign_prop_key(p: &mut Prng, first_free_subtype: u8) -> raw::Proprietar
         // a near miss: the subtype and key shape of a pair the maps DO interpret, under a prefix that is not "pset"
         let prefix: &[u8] = *p.pick(&[&b""[..], b"pse", b"psett", b"PSET", b"qset", b"pset\0", b"p"]);
         let nk = *p.pick(&[0usize, 0, 32, 33]);
+        // half of them: exactly the key shape of a global scalar (subtype 0, 32-byte key) or of the modifiable flag
+        // (subtype 1, no key data)
+        if p.coin() {
+            return if p.coin() { raw::ProprietaryKey { prefix: prefix.to_vec(), subtype: 0, key: p.bytes(32) } } else { raw::ProprietaryKey { prefix: prefix.to_vec(), subtype: 1, key: vec![] } };
+        }
         return raw::ProprietaryKey { prefix: prefix.to_vec(), subtype: p.below(0x17) as u8, key: p.bytes(nk) };
     }
     if p.chance(1, 3) {
